@@ -35,7 +35,9 @@ Element: construct.Struct = construct.Struct(
             "scaler_unit" / cosem.ScalerUnitField,
             "value"
             / construct.Computed(
-                construct.this.unscaled_value * construct.this.scaler_unit.scaler.scale
+                lambda ctx: cosem.scale_value(
+                    ctx.unscaled_value, ctx.scaler_unit.scaler.scale
+                )
             ),
         ),
     ),
